@@ -165,6 +165,54 @@ func runDec(args []string) string {
 	return out
 }
 
+// runRechain: the fuzz invariant on the decoded OBJECT ITSELF (not on a copy rebuilt from its dump): decode the
+// first pickle, encode what came back at protocols 0..5 with the decoder's StrictUnicode; per protocol the outcome
+// class and the bytes.  "NA" when the first Decode fails.
+func runRechain(args []string) string {
+	pd, su := args[0], args[1]
+	data, err := hex.DecodeString(args[2])
+	if err != nil {
+		return "DRIVER-ERROR bad hex"
+	}
+	cfg, _ := decCfg(pd, su, "0")
+	var v any
+	panicked := func() (p bool) {
+		defer func() {
+			if r := recover(); r != nil {
+				p = true
+			}
+		}()
+		v, err = ogorek.NewDecoderWithConfig(bytes.NewReader(data), cfg).Decode()
+		return false
+	}()
+	if panicked || err != nil {
+		return "NA"
+	}
+	var parts []string
+	for proto := 0; proto <= 5; proto++ {
+		var buf bytes.Buffer
+		var eerr error
+		pmsg := func() (msg string) {
+			defer func() {
+				if r := recover(); r != nil {
+					msg = fmt.Sprint(r)
+				}
+			}()
+			eerr = ogorek.NewEncoderWithConfig(&buf, &ogorek.EncoderConfig{Protocol: proto, StrictUnicode: su == "1"}).Encode(v)
+			return ""
+		}()
+		switch {
+		case pmsg != "":
+			parts = append(parts, "panic")
+		case eerr != nil:
+			parts = append(parts, "err "+ogorek.VerifEncErrClass(eerr))
+		default:
+			parts = append(parts, "ok "+hex.EncodeToString(buf.Bytes()))
+		}
+	}
+	return strings.Join(parts, " | ")
+}
+
 func b01(b bool) string {
 	if b {
 		return "1"
@@ -241,6 +289,8 @@ func handle(line string) (out string) {
 	switch f[0] {
 	case "dec":
 		return runDec(f[1:])
+	case "rechain":
+		return runRechain(f[1:])
 	case "eq":
 		return runEq(f[1:])
 	case "declong":
